@@ -10,12 +10,12 @@ Import ListNotations.
    in its level: that factor was verified for the cookie's own user, and not before the session
    began (the iat claim, which every re-signed cookie keeps): a session gains a factor only by a
    verification made during that session. *)
-Theorem c05_inv : forall d w ops c f,
-  let s := fst (run (fixed d w) init ops) in
+Theorem c05_inv : forall d w ok life ops c f,
+  let s := fst (run (fixed_with d w ok life) init ops) in
   In c (issued s) -> has (clevel c) f = true ->
   exists t, (ciat c <= t)%Z /\ In (cuser c, f, t) (proved s).
 Proof.
-  intros d w ops c f s Hc Hf. destruct (run_Inv (fixed d w) ops eq_refl eq_refl eq_refl) as [I1 _].
+  intros d w ok life ops c f s Hc Hf. destruct (run_Inv (fixed_with d w ok life) ops eq_refl eq_refl eq_refl) as [I1 _].
   destruct (I1 c Hc) as [_ J]. exact (J f Hf).
 Qed.
 
@@ -23,44 +23,44 @@ Qed.
    authenticated as (by client certificate, else by the last attached cookie) — a push approval,
    OTP, TOTP code, bootstrap OTP, hardware-token assertion or CLI token belonging to someone else —
    changes nothing but the ghost record of the presented certificate, and emits no cookie *)
-Theorem c05_no_cross_user : forall d w ops cert fault o u u',
-  let s := fst (run (fixed d w) init ops) in
-  about (fixed d w) s o = Some u -> requester (fixed d w) s cert o = Some u' -> u <> u' ->
-  step (fixed d w) s (Req cert fault o) = (present_cert s cert, None).
+Theorem c05_no_cross_user : forall d w ok life ops cert fault o u u',
+  let s := fst (run (fixed_with d w ok life) init ops) in
+  about (fixed_with d w ok life) s o = Some u -> requester (fixed_with d w ok life) s cert o = Some u' -> u <> u' ->
+  step (fixed_with d w ok life) s (Req cert fault o) = (present_cert s cert, None).
 Proof.
-  intros d w ops cert fault o u u' s Ha Hr Hne. cbn [step].
-  destruct (present_cert_Inv s cert (run_Inv (fixed d w) ops eq_refl eq_refl eq_refl)) as [HI _].
-  apply (cross_user_refused (fixed d w) cert fault (present_cert s cert) o u u' eq_refl HI); [| |exact Hne].
+  intros d w ok life ops cert fault o u u' s Ha Hr Hne. cbn [step].
+  destruct (present_cert_Inv s cert (run_Inv (fixed_with d w ok life) ops eq_refl eq_refl eq_refl)) as [HI _].
+  apply (cross_user_refused (fixed_with d w ok life) cert fault (present_cert s cert) o u u' eq_refl HI); [| |exact Hne].
   - rewrite about_present. exact Ha.
   - rewrite requester_present. exact Hr.
 Qed.
 
 (* one-time values: acceptance records the value, a recorded value is never accepted again, so
    no TOTP code, bootstrap OTP or hardware-token challenge is accepted twice in any history *)
-Theorem c05_onetime : forall d w ops o v,
-  let s := fst (run (fixed d w) init ops) in
+Theorem c05_onetime : forall d w ok life ops o v,
+  let s := fst (run (fixed_with d w ok life) init ops) in
   presents o = Some v ->
-  (snd (step (fixed d w) s o) <> None -> spent (fst (step (fixed d w) s o)) = v :: spent s) /\
-  (In v (spent s) -> snd (step (fixed d w) s o) = None) /\
+  (snd (step (fixed_with d w ok life) s o) <> None -> spent (fst (step (fixed_with d w ok life) s o)) = v :: spent s) /\
+  (In v (spent s) -> snd (step (fixed_with d w ok life) s o) = None) /\
   NoDup (spent s).
 Proof.
-  intros d w ops o v s Hp. pose proof (run_Inv2 (fixed d w) ops eq_refl eq_refl) as HJ.
+  intros d w ok life ops o v s Hp. pose proof (run_Inv2 (fixed_with d w ok life) ops eq_refl eq_refl) as HJ.
   split; [apply accepted_spent; exact Hp|]. split.
-  - intros Hin. exact (spent_refused (fixed d w) s o v eq_refl eq_refl HJ Hp Hin).
+  - intros Hin. exact (spent_refused (fixed_with d w ok life) s o v eq_refl eq_refl HJ Hp Hin).
   - destruct HJ as [J0 _]. exact J0.
 Qed.
 
 (* expired values never work, in any state, however the request is authenticated *)
-Theorem c05_expired : forall d w cert fault s o,
-  expired (fixed d w) s cert o = true -> step_req (fixed d w) cert fault s o = (s, None).
-Proof. intros d w cert fault s o. apply expired_refused; reflexivity. Qed.
+Theorem c05_expired : forall d w ok life cert fault s o,
+  expired (fixed_with d w ok life) s cert o = true -> step_req (fixed_with d w ok life) cert fault s o = (s, None).
+Proof. intros d w ok life cert fault s o. apply expired_refused; reflexivity. Qed.
 
 (* an expired session cookie never works: whatever else is attached, if the cookie checkAuth looks at
    (the last one) is past its exp claim, a request without client certificate changes nothing *)
-Theorem c05_cookie_expired : forall d w fault s o cs c,
-  cookies_of o = Some cs -> pick (fixed d w) (attached s cs) = Some c -> (cexp c <= now s)%Z ->
-  step_req (fixed d w) None fault s o = (s, None).
-Proof. intros d w fault s o cs c. apply expired_cookie_refused. Qed.
+Theorem c05_cookie_expired : forall d w ok life fault s o cs c,
+  cookies_of o = Some cs -> pick (fixed_with d w ok life) (attached s cs) = Some c -> (cexp c <= now s)%Z ->
+  step_req (fixed_with d w ok life) None fault s o = (s, None).
+Proof. intros d w ok life fault s o cs c. apply expired_cookie_refused. Qed.
 
 (* one-time values are FRESH.  `minted` is the ghost list of the ids of all one-time values ever handed
    out (hardware-token challenges of both begin handlers, bootstrap OTPs, push transactions); `handed`
@@ -68,9 +68,9 @@ Proof. intros d w fault s o cs c. apply expired_cookie_refused. Qed.
    handed in order of first appearance).  In every history no value is handed out twice, and the
    value a step hands out was never handed out before, is nobody's pending challenge or stored OTP,
    and was never accepted: a begin never revives an old value *)
-Theorem c05_fresh_values : forall d w ops o i,
-  let s := fst (run (fixed d w) init ops) in
-  let s' := fst (step (fixed d w) s o) in
+Theorem c05_fresh_values : forall d w ok life ops o i,
+  let s := fst (run (fixed_with d w ok life) init ops) in
+  let s' := fst (step (fixed_with d w ok life) s o) in
   NoDup (minted s) /\
   (handed s s' = Some i ->
      ~ In i (minted s) /\ minted s' = i :: minted s /\
@@ -78,25 +78,25 @@ Theorem c05_fresh_values : forall d w ops o i,
      (forall u b, boot s u = Some b -> bserial b <> i) /\
      ~ In (OtChal i) (spent s) /\ (forall u, ~ In (OtBoot u i) (spent s))).
 Proof.
-  intros d w ops o i s s'. pose proof (run_Inv3 (fixed d w) ops) as HK. split.
+  intros d w ok life ops o i s s'. pose proof (run_Inv3 (fixed_with d w ok life) ops) as HK. split.
   - destruct HK as [K0 _]. exact K0.
-  - exact (handed_new (fixed d w) s o i HK).
+  - exact (handed_new (fixed_with d w ok life) s o i HK).
 Qed.
 
 (* ... and the expiry of a value is fixed when it is handed out: a challenge that is pending after a
    step under the id of one that was pending before it is that same challenge (same user, same
    ExpiresAt, same kind), likewise a stored bootstrap OTP — no operation re-stamps a pending value.
    With c05_expired: a value never works after its ORIGINAL expiry *)
-Theorem c05_value_fixed : forall d w ops o,
-  let s := fst (run (fixed d w) init ops) in
-  let s' := fst (step (fixed d w) s o) in
+Theorem c05_value_fixed : forall d w ok life ops o,
+  let s := fst (run (fixed_with d w ok life) init ops) in
+  let s' := fst (step (fixed_with d w ok life) s o) in
   (forall u ch u' ch', chal s u = Some ch -> chal s' u' = Some ch' -> chid ch' = chid ch -> u' = u /\ ch' = ch) /\
   (forall u b b', boot s u = Some b -> boot s' u = Some b' -> bserial b' = bserial b -> b' = b).
 Proof.
-  intros d w ops o s s'. pose proof (run_Inv3 (fixed d w) ops) as HK.
-  pose proof (run_Inv2 (fixed d w) ops eq_refl eq_refl) as HJ. split.
-  - intros u ch u' ch'. exact (chal_fixed (fixed d w) s o u ch u' ch' HJ HK).
-  - intros u b b'. exact (boot_fixed (fixed d w) s o u b b' HK).
+  intros d w ok life ops o s s'. pose proof (run_Inv3 (fixed_with d w ok life) ops) as HK.
+  pose proof (run_Inv2 (fixed_with d w ok life) ops eq_refl eq_refl) as HJ. split.
+  - intros u ch u' ch'. exact (chal_fixed (fixed_with d w ok life) s o u ch u' ch' HJ HK).
+  - intros u b b'. exact (boot_fixed (fixed_with d w ok life) s o u b b' HK).
 Qed.
 
 (* WHOSE enrolment a handler works with.  User names are byte strings; the profile table is the list
@@ -208,3 +208,24 @@ Example c05_begin_twice :
   = [(true, Some 2, None); (true, None, Some 0); (true, None, None); (true, None, Some 1); (false, None, None);
      (true, Some 10, None); (false, None, None)]%N.
 Proof. vm_compute. reflexivity. Qed.
+
+(* non-vacuity of the Okta second factor (password backend = the Okta authenticator, cached answers live
+   300 s): a pass code of user 1 in user 2's session is refused, in her own accepted; a push is
+   started, polled (waiting), approved by its owner, polled by the other user (who thereby only starts
+   her own push), polled by the owner: accepted once; 300 s after the login nothing Okta works until
+   the next password check.  Without the Okta backend every Okta operation is refused *)
+Example c05_okta_history :
+  let d := fun _ : N => {| has_totp := false; has_u2f := false; has_wa := false; has_profile := true |} in
+  map (fun ob => match ob with (ok, c, i) => (ok, match c with Some c => Some (cuser c, clevel c) | None => None end) end)
+      (run_obs (fixed_okta d 128 300) init
+        [Login 1 true; Login 2 true; OktaOtp [1%nat] (VGood 1); OktaOtp [0%nat] (VGood 1);
+         OktaPushStart [1%nat]; OktaPoll [1%nat]; OktaApprove 2; OktaPoll [0%nat]; OktaPoll [1%nat]; OktaPoll [1%nat];
+         Tick 300; OktaOtp [1%nat] (VGood 2); Login 2 true; OktaOtp [4%nat] (VGood 2)])
+  = [(true, Some (1, 2)); (true, Some (2, 2)); (false, None); (true, Some (1, 130)); (true, None); (false, None);
+     (true, None); (false, None); (true, Some (2, 130)); (false, None); (true, None); (false, None);
+     (true, Some (2, 2)); (true, Some (2, 130))]%N /\
+  map (fun ob => match ob with (ok, c, i) => (ok, match c with Some c => Some (cuser c, clevel c) | None => None end) end)
+      (run_obs (fixed d 128) init
+        [Login 1 true; OktaOtp [0%nat] (VGood 1); OktaPushStart [0%nat]; OktaApprove 1; OktaPoll [0%nat]])
+  = [(true, Some (1, 2)); (false, None); (false, None); (true, None); (false, None)]%N.
+Proof. split; vm_compute; reflexivity. Qed.
